@@ -140,14 +140,14 @@ func genBodiesFile(repo string) ([]byte, int, error) {
 	}
 	var sb strings.Builder
 	sb.WriteString("//go:build verif\n\npackage sarama\n\n// Generated on every run from /repo's current source by symgo (engine/gen.go).\n\n")
-	sb.WriteString("type vBodyInfo struct {\n\tname string\n\tmaxVersion int16\n\tisResponse bool\n\thasVersion bool\n\tmk func(v int16) protocolBody\n}\n\n")
+	sb.WriteString("type vBodyInfo struct {\n\tname string\n\tmaxVersion int16\n\tisResponse bool\n\thasVersion bool\n\tmk func(v int16) protocolBody\n\tmkBlank func() protocolBody\n}\n\n")
 	sb.WriteString("var vBodies = []vBodyInfo{\n")
 	for _, b := range bodies {
 		mk := fmt.Sprintf("func(v int16) protocolBody { return new(%s) }", b.name)
 		if b.hasVersion {
 			mk = fmt.Sprintf("func(v int16) protocolBody { return &%s{Version: %s(v)} }", b.name, b.versionType)
 		}
-		fmt.Fprintf(&sb, "\t{%q, %d, %v, %v, %s},\n", b.name, b.maxVersion, b.isResponse, b.hasVersion, mk)
+		fmt.Fprintf(&sb, "\t{%q, %d, %v, %v, %s, func() protocolBody { return new(%s) }},\n", b.name, b.maxVersion, b.isResponse, b.hasVersion, mk, b.name)
 	}
 	sb.WriteString("}\n\n// vSetVersion sets the Version field of bodies that carry one.\nfunc vSetVersion(b protocolBody, v int16) {\n\tswitch x := b.(type) {\n")
 	for _, b := range bodies {
